@@ -47,10 +47,17 @@ def configs(tier, seed):
             out.append(dict(harness="orient", code=code, size=list(size), cs=list(cs), mode=mode,
                             dtype=("uint8", "uint16")[(i + j) % 2], cost=1))
     # through main(argv): directory listing, lexicographic slice order, lower-case orientation code; conversion run twice
+    # several multi-channel directories: channels of all directories in order
+    for code, size, cs, mode in (("RAS", (2, 2, 3), (2, 2, 2), "two_rgb"), ("ASR", (2, 3, 2), (2, 2, 2), "rgb_grey"), ("IPL", (3, 2, 2), (2, 2, 2), "grey_rgb"),
+                                 ("PLS", (2, 2, 2), (2, 2, 2), "two_rgb")):
+        out.append(dict(harness="orient", code=code, size=list(size), cs=list(cs), mode=mode, dtype="uint8", cost=2))
     for code, size, cs, mode in (("RAS", (2, 2, 5), (2, 2, 2), "grey"), ("LIP", (3, 4, 2), (2, 2, 2), "two_dirs"), ("SPL", (4, 2, 2), (2, 2, 2), "rgb"),
                                  ("AIR", (2, 3, 4), (2, 2, 3), "grey")):
         out.append(dict(harness="orient", code=code, size=list(size), cs=list(cs), mode=mode, dtype="uint8", via_main=True, repeat=True, cost=2))
     return out
+
+
+_BANDS = {"grey": [1], "two_dirs": [1, 1], "rgb": [3], "two_rgb": [3, 3], "rgb_grey": [3, 1], "grey_rgb": [1, 3]}
 
 
 def _expected_index(code, size, x, y, z):
@@ -68,8 +75,10 @@ def H_orient(ctx, cfg):
     code, size, cs, mode, dtype = cfg["code"], cfg["size"], cfg["cs"], cfg["mode"], cfg["dtype"]
     perm = tuple(AXIS[a] for a in code)
     in_size = tuple(size[p] for p in perm)          # (columns, rows, slices)
-    ndirs = 2 if mode == "two_dirs" else 1
-    C = 3 if mode == "rgb" else ndirs
+    bands = _BANDS[mode]                      # channels per slice directory
+    ndirs = len(bands)
+    C = sum(bands)
+    chan_src = [(d, b if bands[d] > 1 else None) for d in range(ndirs) for b in range(bands[d])]
     images = {}
     lists = []
     allpix = []
@@ -80,7 +89,7 @@ def H_orient(ctx, cfg):
             # through the command line the slices are found by listing the directory: names whose lexicographic order is the
             # slice order but neither the creation order nor the numeric order ("b10" < "b9")
             name = f"/mfs/in{d}/slice{s:03d}.tif" if not via_main else f"/mfs/in{d}/{'cba'[s % 3] if s < 3 else 'd' + str(13 - s)}.tif"
-            shape = (in_size[1], in_size[0]) + ((3,) if mode == "rgb" else ())
+            shape = (in_size[1], in_size[0]) + ((3,) if bands[d] == 3 else ())
             img = SArray.fresh(shape, dtype, f"px{d}_{s}")
             images[name] = img
             allpix.append([x.e for x in img.a.ravel()])
@@ -146,10 +155,8 @@ def H_orient(ctx, cfg):
             for y in range(Y):
                 for x in range(X):
                     col, row, sl = _expected_index(code, size, x, y, z)
-                    if mode == "rgb":
-                        src = images[lists[0][sl]].a[row, col, c]
-                    else:
-                        src = images[lists[c][sl]].a[row, col]
+                    d_, b_ = chan_src[c]
+                    src = images[lists[d_][sl]].a[row, col] if b_ is None else images[lists[d_][sl]].a[row, col, b_]
                     got = out[c, z, y, x]
                     if got is None:
                         ctx.fail("voxel-not-written", detail=str((c, z, y, x)))
@@ -167,8 +174,10 @@ def replay(cfg, cex):
     code, size, cs, mode, dtype = cfg["code"], cfg["size"], cfg["cs"], cfg["mode"], cfg["dtype"]
     perm = tuple(AXIS[a] for a in code)
     in_size = tuple(size[p] for p in perm)
-    ndirs = 2 if mode == "two_dirs" else 1
-    C = 3 if mode == "rgb" else ndirs
+    bands = _BANDS[mode]
+    ndirs = len(bands)
+    C = sum(bands)
+    chan_src = [(d, b if bands[d] > 1 else None) for d in range(ndirs) for b in range(bands[d])]
     pix = cex["inputs"]["pixels"]
     mod = load.mod("scripts.slices_to_precomputed")
     pio = load.mod("precomputed_io")
@@ -179,7 +188,7 @@ def replay(cfg, cex):
     for d in range(ndirs):
         names = []
         for s in range(in_size[2]):
-            shape = (in_size[1], in_size[0]) + ((3,) if mode == "rgb" else ())
+            shape = (in_size[1], in_size[0]) + ((3,) if bands[d] == 3 else ())
             images[f"in{d}/slice{s:03d}"] = real_np.array(pix[k], dtype=real_np.uint64).astype(dtype).reshape(shape)
             names.append(f"in{d}/slice{s:03d}")
             k += 1
@@ -230,7 +239,8 @@ def replay(cfg, cex):
                                 for y in range(cc[2], cc[3]):
                                     for x in range(cc[0], cc[1]):
                                         col, row, sl = _expected_index(code, size, x, y, z)
-                                        src = images[lists[0][sl]][row, col, c] if mode == "rgb" else images[lists[c][sl]][row, col]
+                                        d_, b_ = chan_src[c]
+                                        src = images[lists[d_][sl]][row, col] if b_ is None else images[lists[d_][sl]][row, col, b_]
                                         if ch[c, z - cc[4], y - cc[2], x - cc[0]] != src:
                                             return True, f"orientation {code}: voxel {(x, y, z)} channel {c} = {ch[c, z - cc[4], y - cc[2], x - cc[0]]}, expected pixel (col {col}, row {row}, slice {sl}) = {src}"
     finally:
